@@ -55,18 +55,89 @@ def _inside(node: ast.AST, container: ast.AST) -> bool:
     return any(sub is node for sub in ast.walk(container))
 
 
+def _bool_returns_as_branches(fi):
+    """`return <boolean expression>` -> `if <expr>: return True` / `return False`
+    (same truthiness), so that `return any(ip in n for n in nets)` exposes its
+    hit / miss outcomes as CFG edges.  Plain names, attribute chains and
+    constants are left alone."""
+    import copy
+    from ..loader import FunctionInfo
+
+    node = copy.deepcopy(fi.node)
+
+    class T(ast.NodeTransformer):
+        def visit_FunctionDef(self, n):  # noqa: N802
+            if n is not node:
+                return n
+            self.generic_visit(n)
+            return n
+
+        def visit_Return(self, r):  # noqa: N802
+            v = r.value
+            if v is None or isinstance(v, ast.Constant) or dotted(v) is not None:
+                return r
+            if isinstance(v, (ast.BoolOp, ast.Compare, ast.Call)) or (isinstance(v, ast.UnaryOp) and isinstance(v.op, ast.Not)):
+                t = ast.If(test=v, body=[ast.Return(value=ast.Constant(value=True))], orelse=[])
+                f = ast.Return(value=ast.Constant(value=False))
+                for x in (t, f):
+                    ast.copy_location(x, r)
+                    ast.fix_missing_locations(x)
+                return [t, f]
+            return r
+
+    node = T().visit(node)
+    ast.fix_missing_locations(node)
+    return FunctionInfo(fi.module, fi.qualname, node, fi.cls)
+
+
+def _member_sites(g, word: str):
+    """Hit and miss edges of "is the address in some network of the <word>
+    collection": for-loops over it with an inner `x in <loopvar>` test, and
+    `any(x in n for n in <collection>)` tests."""
+    hit, miss, sites = set(), set(), []
+    defs = Defs(g)
+
+    def about(node, expr) -> bool:
+        if word in norm(expr):
+            return True
+        if isinstance(expr, ast.Name):
+            return any(not isinstance(le, _Sel) and word in norm(le) for _, le in origins(defs, node, expr))
+        return False
+
+    for n in g.nodes:
+        if n.kind == "for" and about(n, n.ast.iter):
+            var = dotted(n.ast.target)
+            sites.append(n)
+            for b, lab in g.succ[n.id]:
+                if lab == "F":
+                    miss.add((n.id, b, lab))
+            for t in g.nodes:
+                if t.kind == "test" and isinstance(t.ast, ast.Compare) and isinstance(t.ast.ops[0], ast.In) and dotted(t.ast.comparators[0]) == var and _inside(t.ast, n.ast):
+                    for b, lab in g.succ[t.id]:
+                        if lab == "T":
+                            hit.add((t.id, b, lab))
+        if n.kind == "test" and isinstance(n.ast, ast.Call) and dotted(n.ast.func) == "any" and n.ast.args and isinstance(n.ast.args[0], ast.GeneratorExp):
+            ge = n.ast.args[0]
+            gen = ge.generators[0]
+            if about(n, gen.iter) and isinstance(ge.elt, ast.Compare) and isinstance(ge.elt.ops[0], ast.In) and dotted(ge.elt.comparators[0]) == dotted(gen.target) and not gen.ifs:
+                sites.append(n)
+                for b, lab in g.succ[n.id]:
+                    (hit if lab == "T" else miss).add((n.id, b, lab))
+    return hit, miss, sites
+
+
 def rule_i1(chk: Check) -> None:
-    chk.rule("I1", "_is_allowed: unparsable -> False; deny loop exhausted before any admission; True only via allow-member hit; default only without allow list")
-    fi = chk.proj.func(f"{MW}:AccessControl._is_allowed")
+    chk.rule("I1", "_is_allowed: unparsable -> False; deny membership decided (and negative) before any admission; True only via allow-member hit; allow miss denies; default only without allow list, asked of the whole configured list")
+    fi0 = chk.proj.func(f"{MW}:AccessControl._is_allowed")
+    fi = _bool_returns_as_branches(fi0)
     g = build_cfg(chk.proj, fi)
     rets = [n for n in g.nodes if n.kind == "stmt" and isinstance(n.ast, ast.Return)]
-    loops = [n for n in g.nodes if n.kind == "for"]
-    deny = [h for h in loops if "deny" in norm(h.ast.iter)]
-    allow = [h for h in loops if "allow" in norm(h.ast.iter)]
     parse = [n for n in g.nodes if n.ast is not None and n.kind == "stmt" and any((dotted(c.func) or "").split(".")[-1] == "ip_address" for c in calls(n.ast))]
+    dhit, dmiss, dsites = _member_sites(g, "deny")
+    ahit, amiss, asites = _member_sites(g, "allow")
     okp = chk.require("I1", fi.key, "ip_address parse", len(parse), 1, "the peer address is not parsed with ipaddress.ip_address: textual comparison cannot decide CIDR membership")
-    okd = chk.require("I1", fi.key, "loop over deny networks", len(deny), 1, "the deny list is not consulted")
-    oka = chk.require("I1", fi.key, "loop over allow networks", len(allow), 1, "the allow list is not consulted")
+    okd = chk.require("I1", fi.key, "membership test over the deny networks", len(dsites), 1, "the deny list is not consulted")
+    oka = chk.require("I1", fi.key, "membership test over the allow networks", len(asites), 1, "the allow list is not consulted")
     if not (okp and okd and oka):
         return
     admitting = [r for r in rets if _ret_const(r) is not False]
@@ -82,50 +153,46 @@ def rule_i1(chk: Check) -> None:
     else:
         chk.finding("I1", fi.key, "unparsable-unhandled", "a parse failure of the peer address is not turned into a refusal", parse[0].where())
     chk.ob("I1", "unparsable address -> deny", ok)
-    # R2 deny list first and complete
-    dh = deny[0]
-    blocked = {(dh.id, b, lab) for b, lab in g.succ[dh.id] if lab == "F"}
-    par = g.reach([g.entry.id], blocked_edges=blocked, follow=normal_only)
+    # R2 deny first and complete
+    par = g.reach([g.entry.id], blocked_edges=dmiss, follow=normal_only)
     bad = [r for r in admitting if r.id in par]
     ok2 = not bad
     if bad:
-        chk.finding("I1", fi.key, "admit-before-deny-list", f"`{norm(bad[0].ast)}` is reachable without having checked the address against every deny entry: deny does not take precedence", bad[0].where(), g.fmt_path(g.path_to(par, bad[0].id)))
-    # member hit in the deny loop returns False
-    var = dotted(dh.ast.target)
-    hits = [n for n in g.nodes if n.kind == "test" and isinstance(n.ast, ast.Compare) and isinstance(n.ast.ops[0], ast.In) and dotted(n.ast.comparators[0]) == var and _inside(n.ast, dh.ast)]
-    ok2b = bool(hits)
-    for t in hits:
-        ts = [b for b, lab in g.succ[t.id] if lab == "T"]
-        p2 = g.reach(ts, follow=normal_only)
-        if any(r.id in p2 for r in admitting) or dh.id in p2:
+        chk.finding("I1", fi.key, "admit-before-deny-list", f"`{norm(bad[0].ast)}` is reachable without the address having been found outside every deny entry: deny does not take precedence", bad[0].where(), g.fmt_path(g.path_to(par, bad[0].id)))
+    ok2b = bool(dhit)
+    for (a, b, lab) in dhit:
+        p2 = g.reach([b], follow=normal_only)
+        if any(r.id in p2 for r in admitting) or any(s_.id in p2 for s_ in dsites if s_.kind == "for"):
             ok2b = False
-            chk.finding("I1", fi.key, "deny-hit-not-refused", "an address inside a deny entry is not refused immediately", t.where())
-    chk.ob("I1", "deny list exhausted before any admission", ok2)
+            chk.finding("I1", fi.key, "deny-hit-not-refused", "an address inside a deny entry is not refused immediately", g.nodes[a].where())
+    chk.ob("I1", "deny membership negative before any admission", ok2)
     chk.ob("I1", "deny member hit -> False", ok2b)
     # R3 allow list
-    ah = allow[0]
-    avar = dotted(ah.ast.target)
-    ahits = [n for n in g.nodes if n.kind == "test" and isinstance(n.ast, ast.Compare) and isinstance(n.ast.ops[0], ast.In) and dotted(n.ast.comparators[0]) == avar and _inside(n.ast, ah.ast)]
     true_rets = [r for r in rets if _ret_const(r) is True]
-    blocked = {(t.id, b, lab) for t in ahits for b, lab in g.succ[t.id] if lab == "T"}
-    par = g.reach([g.entry.id], blocked_edges=blocked, follow=normal_only)
+    par = g.reach([g.entry.id], blocked_edges=ahit, follow=normal_only)
     bad = [r for r in true_rets if r.id in par]
-    ok3 = bool(ahits) and bool(true_rets) and not bad
-    if bad or not ahits or not true_rets:
+    ok3 = bool(ahit) and bool(true_rets) and not bad
+    if not ok3:
         chk.finding("I1", fi.key, "admit-without-allow-hit", "`return True` is reachable without a member hit in the allow list (or no such hit admits)", (bad or rets)[0].where())
-    # exhaustion of the allow loop denies
-    ex = [b for b, lab in g.succ[ah.id] if lab == "F"]
-    p3 = g.reach(ex, follow=normal_only)
-    bad = [r for r in admitting if r.id in p3]
-    ok3b = not bad
-    if bad:
-        chk.finding("I1", fi.key, "allow-miss-admitted", "with an allow list configured, an address in none of its entries can still be admitted", bad[0].where())
+    ok3b = True
+    for (a, b, lab) in amiss:
+        p3 = g.reach([b], follow=normal_only)
+        bad = [r for r in admitting if r.id in p3]
+        if bad:
+            ok3b = False
+            chk.finding("I1", fi.key, "allow-miss-admitted", "with an allow list configured, an address in none of its entries can still be admitted", bad[0].where())
     chk.ob("I1", "True only via allow-member hit", ok3)
-    chk.ob("I1", "allow list exhausted -> False", ok3b)
+    chk.ob("I1", "allow miss -> False", ok3b)
     # R4 default only without allow list
     dflt = [r for r in rets if isinstance(_ret_const(r), tuple)]
     okdf = bool(dflt) and all("default_allow" in norm(r.ast.value) and not isinstance(r.ast.value, ast.UnaryOp) for r in dflt)
-    tests = [n for n in g.nodes if n.kind == "test" and (dotted(n.ast) or "").endswith("allow_networks")]
+    d = Defs(g)
+    tests = []
+    for n in g.nodes:
+        if n.kind == "test" and dotted(n.ast):
+            ls = origins(d, n, n.ast)
+            if dotted(n.ast).endswith("allow_networks") or any(not isinstance(le, _Sel) and "allow" in norm(le) and "default" not in norm(le) for _, le in ls):
+                tests.append(n)
     if tests and dflt:
         blocked = {(t.id, b, lab) for t in tests for b, lab in g.succ[t.id] if lab == "F"}
         par = g.reach([g.entry.id], blocked_edges=blocked, follow=normal_only)
@@ -148,8 +215,13 @@ def rule_i1(chk: Check) -> None:
                 mc = method_call(c)
                 if mc and mc[1] in ("append", "add") and (dotted(mc[0]) or "").startswith("self."):
                     full.add(dotted(mc[0]))
+        for st in walk(init.node):
+            if isinstance(st, (ast.Assign, ast.AnnAssign)) and st.value is not None and "allow_list" in norm(st.value):
+                tg = st.targets if isinstance(st, ast.Assign) else [st.target]
+                for t in tg:
+                    if (dotted(t) or "").startswith("self."):
+                        full.add(dotted(t))
     full |= {"self.config.allow_list"}
-    d = Defs(g)
     okw = bool(tests)
     for t in tests:
         for _dn, le in origins(d, t, t.ast):
@@ -201,8 +273,10 @@ def rule_i2(chk: Check) -> None:
 
 def rule_i3(chk: Check) -> None:
     chk.rule("I3", "an unparsable list entry propagates out of AccessControl.__init__ (no handler skips an entry); the constructor runs before create_server, outside any try")
+    from ..cfg import Builder, inline_local
+
     fi = chk.proj.func(f"{MW}:AccessControl.__init__")
-    g = build_cfg(chk.proj, fi)
+    g = Builder(chk.proj, inline_local, 3).build(fi)
     heads = [n for n in g.nodes if n.kind == "for"]
     chk.require("I3", fi.key, "loops over the configured lists", len(heads), 2, "the allow/deny lists are not both parsed in the constructor")
     appends = {n.id for n in g.nodes if n.ast is not None and n.kind == "stmt" and any(method_call(c) and method_call(c)[1] in ("append", "add", "extend") for c in calls(n.ast))}
